@@ -19,7 +19,7 @@ static struct vf_el vf_pool[VF_POOL];
 static int vf_cmp_key(const void * a, const void * b, void * p)
 {
     (void)p;
-    return ((const struct vf_el *)a)->key - ((const struct vf_el *)b)->key;
+    return vf_signmag(((const struct vf_el *)a)->key > ((const struct vf_el *)b)->key, ((const struct vf_el *)a)->key < ((const struct vf_el *)b)->key);
 }
 
 #ifdef VF_RB
